@@ -146,6 +146,7 @@ func Gen(caseID, tier string) (json.RawMessage, error) {
 	p.OmitStartTime = r.Chance(1, 4)
 	p.KvnoInReply = r.Chance(1, 2)
 	p.TktEtype = r.PickInt(0, 18, 17, 20, 23)
+	p.ExpiryGraceS = int64(r.PickInt(0, 300))
 	if tp.Cred == "password" && p.RequirePreauth && r.Chance(1, 2) {
 		tp.Salt = fmt.Sprintf("Salt%d.realm", r.Intn(1000))
 		if r.Chance(1, 2) {
@@ -211,7 +212,13 @@ func Gen(caseID, tier string) (json.RawMessage, error) {
 		case x < 17:
 			ref := r.Pick("tgt_end", "tgt_end", "tgt_renew_point", "tgt_renew_till", "tkt_end", "tkt_end")
 			delta := []int64{-2_000_000_000, -1_000_000_000, -500_000_000, -1, 0, 1, 500_000_000, 1_000_000_000, 2_000_000_000, 60_000_000_000, -60_000_000_000}[r.Intn(11)]
-			tp.Ops = append(tp.Ops, Op{Op: "sleep_to", Ref: ref, SPN: spns[r.Intn(len(spns))], Delta: delta})
+			st := Op{Op: "sleep_to", Ref: ref, SPN: spns[r.Intn(len(spns))], Delta: delta}
+			tp.Ops = append(tp.Ops, st)
+			if ref == "tkt_end" && r.Chance(2, 3) {
+				// ask for that very ticket again around its end (inside the renewable window, and
+				// inside the allowance some KDCs give an expired ticket, the library renews it)
+				tp.Ops = append(tp.Ops, Op{Op: "tgs", SPN: st.SPN})
+			}
 		case x < 18:
 			tp.Ops = append(tp.Ops, Op{Op: r.Pick("login", "affirm")})
 		case x < 19 && !destroyed && len(tp.Ops) > 3:
